@@ -14,3 +14,4 @@ def check(rep, tier):
     from contracts import value_transparency
     rep.run(value_transparency.run, rep, tier)
     rep.run(value_transparency.run_ops, rep, tier)
+    rep.run(value_transparency.run_plain, rep, tier)
